@@ -13,8 +13,9 @@ CONSTANTS D,        \* maximal number of operations in a behaviour
           LogCap,   \* maximal length of one log (keeps the cover finite)
           Small     \* TRUE: reduced alphabet (quick), FALSE: full alphabet
 
-VARIABLES refs, logs, path
-vars == <<refs, logs, path>>
+VARIABLES refs, logs, path,
+          fs        \* applicability of the path to the FILE ref store (pkg/ref/fs), see FsStep; not in the view
+vars == <<refs, logs, path, fs>>
 View == <<refs, logs>>
 
 Names == { "heads/a_b", "heads/aXb", "heads/A_b", "heads/a%b",
@@ -60,11 +61,28 @@ Enabled(o) ==
   /\ o[1] = "renremote" => RenameAllRemoteEnabled(refs, o[2], o[3])
   /\ o[1] = "setlog" => Len(LogOf(logs, o[2])) < LogCap
 
+(* The file store (pkg/ref/fs) is judged "for the operations it implements" (statement of C15):   *)
+(* single names, logs, rename onto a fresh name, copy of a logged ref onto a fresh name, listing  *)
+(* by ONE directory prefix.  2 = judge result and state, 1 = judge the state only (copying a ref  *)
+(* onto itself must leave it alone, whatever it answers), 0 = not judged (overwriting renames,    *)
+(* exclusion prefixes, several prefixes, prefixes that are not directories).                      *)
+EndsWithSlash(p) == p = "" \/ SubSeq(p, Len(p), Len(p)) = "/"
+FsStep(o) ==
+  CASE o[1] \in {"set", "setlog", "del", "get", "log"} -> 2
+    [] o[1] = "ren"    -> IF o[2] \notin DOMAIN refs THEN 2
+                          ELSE IF o[3] \in DOMAIN refs THEN 0 ELSE 2
+    [] o[1] = "copy"   -> IF o[2] \notin DOMAIN refs THEN 2
+                          ELSE IF o[2] = o[3] THEN 1
+                          ELSE IF o[3] \in DOMAIN refs \/ o[2] \notin DOMAIN logs THEN 0 ELSE 2
+    [] o[1] = "filter" -> IF Cardinality(o[5]) = 1 /\ o[6] = {} /\ \A q \in o[5] : EndsWithSlash(q) THEN 2 ELSE 0
+    [] OTHER           -> 2
+Min2(a, b) == IF a < b THEN a ELSE b
+
 (* abstract state as JSON-friendly sets of pairs *)
 Export(r, l) == [refs |-> {<<n, r[n]>> : n \in DOMAIN r},
                  logs |-> {<<n, l[n]>> : n \in DOMAIN l}]
 
-Init == refs = <<>> /\ logs = <<>> /\ path = <<>>
+Init == refs = <<>> /\ logs = <<>> /\ path = <<>> /\ fs = 2
 
 Next ==
   /\ Len(path) < D
@@ -74,7 +92,8 @@ Next ==
             /\ refs' = s.refs
             /\ logs' = s.logs
             /\ path' = Append(path, o)
-            /\ PrintT(<<"SCN", ToJson([path |-> path', ret |-> s.ret, post |-> Export(s.refs, s.logs)])>>)
+            /\ fs' = Min2(fs, FsStep(o))
+            /\ PrintT(<<"SCN", ToJson([path |-> path', ret |-> s.ret, post |-> Export(s.refs, s.logs), fs |-> fs'])>>)
 
 Spec == Init /\ [][Next]_vars
 
